@@ -121,6 +121,37 @@ def run_unit(name, tier, seed, vacuity=False):
     if tier == 'thorough' and not vacuity:
         pass
     unit.run_verus(res, woven, timeout=timeout, rlimit=rl, extra=extra)
+    # Solver instability is not a property violation.  (1) A failed obligation is re-tried with other solver seeds: any run that discharges
+    # every obligation of the unit is a proof (the verdict of the verifier on the same text), so the unit counts as discharged and the
+    # retry is recorded.  (2) An obligation that still fails but lies in the PRELUDE (specification functions and lemmas of the mirror, no
+    # code of /repo) cannot be a violation of the property by /repo: it is reported as UNDECIDED (proof instability), never as an alarm.
+    retries = []
+    if res.status == 'failed':
+        first_failed = list(res.failed)
+        for n, sd in enumerate((seed + 101, seed + 202)):
+            res2, woven2 = unit.build(vrs, os.path.join(BUILD, name.split('/')[0]), vacuity=vacuity, canary=not vacuity)
+            if woven2 is None:
+                break
+            unit.run_verus(res2, woven2, timeout=timeout, rlimit=rl, extra=['--smt-option', 'smt.random_seed=%d' % sd])
+            retries.append({'seed': sd, 'status': res2.status, 'failed': [obligation_name(f) for f in res2.failed]})
+            if res2.status == 'discharged':
+                res2.retry_note = 'first run failed %s; discharged with solver seed %d' % (', '.join(obligation_name(f) for f in first_failed), sd)
+                res2.retries = retries
+                return res2
+            if res2.status == 'failed':
+                # keep only obligations that fail under every seed tried so far
+                names = set(obligation_name(f) for f in res2.failed)
+                res.failed = [f for f in res.failed if obligation_name(f) in names]
+                if not res.failed:
+                    res.status = 'undecided'
+                    res.reason = 'INSTABILITY: different obligations fail under different solver seeds (no obligation fails under all): %s' % json.dumps(retries)
+                    break
+        res.retries = retries
+    if res.status == 'failed' and all(f.get('item') == 'prelude' for f in res.failed):
+        res.status = 'undecided'
+        res.reason = 'INSTABILITY: only prelude obligations (lemmas / spec functions of the mirror, independent of /repo) failed: ' + '; '.join(obligation_name(f) for f in res.failed)
+    elif res.status == 'failed':
+        res.failed = [f for f in res.failed if f.get('item') != 'prelude']
     return res
 
 
@@ -267,7 +298,7 @@ def main(argv):
     # ---- report
     for r in results:
         print('unit %-18s %-11s verified=%d wall=%.1fs smt=%dms %s' % (r.name, r.status, r.verified, r.wall_s, r.smt_ms,
-              ('rewoven: ' + ', '.join(x.split(' :: ', 1)[1] for x in r.changed_items)) if r.changed_items else ''))
+              (('rewoven: ' + ', '.join(x.split(' :: ', 1)[1] for x in r.changed_items)) if r.changed_items else '') + ((' [' + r.retry_note + ']') if getattr(r, 'retry_note', '') else '')))
     for k in kani_results:
         print('kani %-24s %-11s checks=%d wall=%.1fs' % (k['harness'], k['status'], k.get('checks', 0), k.get('wall_s', 0)))
     for (f, k) in known_hits:
@@ -325,7 +356,8 @@ def evidence(prop, tier, seed, results, kani_results, failed, undecided, known_h
         'rewrites_applied': rewrites,
         'verus_items_verified': sum(r.verified for r in results),
         'verus_units': [{'unit': r.name, 'status': r.status, 'verified': r.verified, 'wall_s': round(r.wall_s, 2), 'smt_ms': r.smt_ms,
-                         'canary_failed_as_required': r.canary_ok, 'reason': r.reason} for r in results],
+                         'canary_failed_as_required': r.canary_ok, 'reason': r.reason,
+                         'solver_seed_retries': getattr(r, 'retries', []), 'retry_note': getattr(r, 'retry_note', '')} for r in results],
         'kani_harnesses': [{k2: v for k2, v in k.items() if k2 not in ('output',)} for k in kani_results],
         'solver_time_ms': sum(r.smt_ms for r in results),
         'failed_obligations': [dict(f, name=obligation_name(f)) for f in failed],
